@@ -326,6 +326,9 @@ def run(pid, tier, replay=None):
                     rt.step()
                 run_.miner()
                 for round_ in range(3 if quick else 5):
+                    # the miner's hand-over replaces the served state with its own copy plus the found block: a block the network
+                    # thread added in between is no longer in memory (TraceNode follows that replacement) -- build only on what is there
+                    rt.stored = [a for a in rt.stored if w3.by_abs[a].hash() in run_.node.chain().block_by_hash]
                     # pool content: 0..3 admissible transactions with arbitrary fees
                     head_abs = [a for a in rt.stored if w3.by_abs[a].hash() == run_.node.chain().current_chain_hash][0]
                     used = set()
